@@ -194,6 +194,14 @@ def run(ctx, R, tier):
     R.check(ok, "C16-R4", "register|marks-before-entry", "_pyroId and _pyroDaemon are stored on the object before the registry entry appears", reg.loc(st0),
             "the registry entry can exist without the marks that auto-proxying relies on")
 
+    c2d = ctx.fn("Pyro5.serializers.SerializerBase.class_to_dict")
+    neutral = [st for st, t, k in stores_in(c2d.node) if isinstance(t, ast.Attribute) and t.attr == "_pyroDaemon"]
+    okn = bool(neutral) and all(k_ == "assign" for st, t, k_ in stores_in(c2d.node) if isinstance(t, ast.Attribute) and t.attr == "_pyroDaemon")
+    R.check(okn, "C16-R4", "class_to_dict|daemon-mark-neutralised-by-assignment", "by-value serialisation hides the daemon mark by assigning None (the mark may live on the registered class, where `del` on the instance fails)",
+            c2d.loc(neutral[0]) if neutral else c2d.loc(),
+            "class_to_dict deletes obj._pyroDaemon: for an instance of a class that was registered as a class the attribute lives on the class, the delete raises AttributeError and the object "
+            "cannot travel by value after its class was unregistered by id")
+
     # ---------------------------------------------------------------- R5
     rt = [c for c, _ in ctx.cg.calls_of(reg) if isinstance(c.func, ast.Attribute) and c.func.attr == "register_type_replacement"]
     ok = bool(rt)
